@@ -7,8 +7,12 @@
 (b) the escaping law of the token layer (proc_macro2 / prettyplease / rustc) is NOT encoded: it is an assumption of the
     claim, exercised concretely each run on a corpus of nasty strings through the real build and syn's unescaping.
 """
+import os
+import shutil
+import tempfile
 import z3
 from harness.common import *
+from mirsym.oracle import Oracle
 
 FIXTURE = '/repo/wgsl_to_wgpu/src/data/fragment_simple.wgsl'
 
@@ -62,6 +66,8 @@ def run(ctx):
         problems = []
         if kind == 'panic' or out.disc != 0:
             problems.append(f'generation fails: {kind} {out}')
+        elif not hasattr(out.fields[0], 'toks'):
+            problems.append(f'the generated text went through a text-altering string operation ({out.fields[0]!r}): the SOURCE literal can no longer be shown to be the input')
         else:
             toks = out.fields[0].toks
             its = T.items(toks)
@@ -170,6 +176,24 @@ def native_corpus(ctx, base, only_first_failure=False):
                     ctx.replayed_ok += 1
                 elif bad is None:
                     bad = {'wgsl': src, 'rustfmt': fmt, 'source_constant': T.text(val)[:200]}
+    # formatter requested but absent (the fallback path of pretty_print_rustfmt): PATH holds no rustfmt
+    d = tempfile.mkdtemp(prefix='nofmt', dir=os.path.join(VERIF, '.cache'))
+    try:
+        o = Oracle(env={'PATH': d})
+        for extra in NASTY + ['// a; b { c } d ;  {  }  ;\n', 'fn helper(x: f32) -> f32 { var s = 0.0; for (var i = 0; i < 4; i++) { s += x; } return s; }\n']:
+            src = extra + base
+            r = o.gen(src, {'rustfmt': True})
+            if 'ok' not in r:
+                continue
+            val, _ = source_value(ctx, r['ok'])
+            det['checked'] += 1
+            if len(val) == 1 and val[0].k == 'lit' and val[0].v == ('string', src):
+                ctx.replayed_ok += 1
+            elif bad is None:
+                bad = {'wgsl': src, 'rustfmt': 'requested, not on PATH', 'source_constant': T.text(val)[:200]}
+        o.close()
+    finally:
+        shutil.rmtree(d, ignore_errors=True)
     for path in ['shader.wgsl', 'dir with space/sh"ad\\er.wgsl', 'ünï/\U0001F600.wgsl', '../x\ty.wgsl']:
         r = ctx.S.oracle.gen(base, {}, include=path)
         if 'ok' in r:
